@@ -291,13 +291,13 @@ func prelude(bv bool, useStr bool) string {
 	if bv {
 		b.WriteString("(assert (= (gstr.len gstr.empty) (_ bv0 64)))\n")
 		if useStr {
-			b.WriteString("(assert (forall ((s Str)) (! (bvsge (gstr.len s) (_ bv0 64)) :pattern ((gstr.len s)))))\n")
+			b.WriteString("(assert (forall ((s Str)) (! (and (bvsge (gstr.len s) (_ bv0 64)) (bvsle (gstr.len s) (_ bv281474976710656 64))) :pattern ((gstr.len s)))))\n")
 			b.WriteString("(assert (forall ((s Str)) (! (=> (= (gstr.len s) (_ bv0 64)) (= s gstr.empty)) :pattern ((gstr.len s)))))\n")
 		}
 	} else {
 		b.WriteString("(assert (= (gstr.len gstr.empty) 0))\n")
 		if useStr {
-			b.WriteString("(assert (forall ((s Str)) (! (>= (gstr.len s) 0) :pattern ((gstr.len s)))))\n")
+			b.WriteString("(assert (forall ((s Str)) (! (and (>= (gstr.len s) 0) (<= (gstr.len s) 281474976710656)) :pattern ((gstr.len s)))))\n")
 			b.WriteString("(assert (forall ((s Str)) (! (=> (= (gstr.len s) 0) (= s gstr.empty)) :pattern ((gstr.len s)))))\n")
 		}
 		b.WriteString("(define-fun go.div ((x Int) (y Int)) Int (ite (>= x 0) (ite (> y 0) (div x y) (- (div x (- y)))) (ite (> y 0) (- (div (- x) y)) (div (- x) (- y)))))\n")
